@@ -501,8 +501,19 @@ def keyholder_script(rng, name, final):
     for r in raws:
         ops += ["nseal 1 p2 " + r, "ndeliver 0"]
     ops += ["nseal 1 p9 00"]
-    if final:
+    # ROTATION messages (type 0x10 | id (8) | len, proposed key | 0 or len, confirmed key) whose id is not newer than the receiver's: ignored, whatever the keys
+    ops += ["nseal 1 p2 10" + "00" * 8 + "05" + "0102030405" + "00", "ndeliver 0"]
+    if final is True or final == 1:
         ops += ["nseal 1 p2 -", "ndeliver 0"]
+    elif final == 2:
+        # `derive_key(private_key, msg.propose).unwrap()`: a proposed key of five bytes with a newer id (model: PeerCrypto.derivePanics)
+        ops += ["nseal 1 p2 10" + "00" * 6 + "ffff" + "05" + "0102030405" + "00", "ndeliver 0"]
+    elif final == 3:
+        # second site: the responder's own proposal is still outstanding; 32-byte proposed key, confirmed key of five bytes
+        ops += ["nseal 1 p2 10" + "00" * 6 + "ffff" + "20" + "09" * 32 + "05" + "0102030405", "ndeliver 0"]
+    elif final == 4:
+        # the same message to the handshake initiator (nothing proposed yet): the confirmed key is never derived, no panic
+        ops += ["nseal 2 p1 10" + "00" * 6 + "ffff" + "20" + "09" * 32 + "05" + "0102030405", "ndeliver 0"]
     return Script(name, ops, {"suite": "node", "noshrink": True})
 
 
